@@ -31,6 +31,16 @@ CHECKS.update({
  'C10': dict(level='exploration', technique='stateless DFS over schedules (deviation bounding) of N concurrent writers plus a lock competitor on the instrumented real code; deadlock verdict, linearizability and journal read-back oracles',
    text='2-4 writers (merge on/off, one above the merge capacity so the hand-off path runs) plus Close / transaction / CompactRange / SetReadOnly are explored under every schedule within the bound. Each execution must end with every writer answered (exact deadlock/hang verdict), a linearizable history, and a journal whose records have contiguous disjoint sequence ranges containing every acknowledged write exactly once; evidence lists the merge-group shapes reached.',
    note='Bounded schedules; group membership is read from journal records (no source hook).', design='4/C10'),
+
+ 'C06': dict(level='model_checking', technique='explicit-state BFS over operation sequences with a scheduler step-hook monitor that validates every installed version by reading all live tables back from storage',
+   text='Inside a breadth-first search over write/batch/transaction/compaction/reopen sequences (5 option sets, 5 comparers) a monitor fires at the instant the current version changes and checks: every live table exists with its recorded size, is strictly increasing, recorded smallest/largest keys equal first/last entries, levels>=1 ordered and pairwise disjoint in user keys, and per user key every shallower entry is newer than every deeper one. Versions after crash recovery are validated in C04, after Recover in C19.',
+   note='Monitor reads tables with the real table.Reader; level-0 file order is recorded but not part of the verdict.', design='4/C06'),
+ 'C11': dict(level='model_checking', technique='explicit-state BFS over operation sequences including transaction bodies on the real DB, per-view reference models, storage-residue oracle',
+   text='Sequences with OpenTransaction/Put/Delete/Write/Commit/Discard/Close-with-open-transaction and large-batch Write: after every transition the transaction view equals (state at open + its writes), DB/snapshot/fresh-snapshot views equal the state without them; after Commit all visible; after Discard/Close none, and once quiescent storage lists exactly live tables + journal(s) + manifest.',
+   note='Crash around commit: C04; commit failures: C08/C09; concurrent readers: C05.', design='4/C11'),
+ 'C20': dict(level='model_checking', technique='explicit-state BFS over operation sequences with an adversarial caller that scribbles over every argument and result buffer, on the pool/cache/compression/location option grid',
+   text='Every argument buffer is overwritten right after its call returns and every Get result after it was compared; full read-back after every step of every path against a model holding private copies, for 9 option sets covering buffer pool on/off, block cache on/off/tiny, snappy, data in tables vs buffers, DB/Snapshot/Transaction/iterator handles.',
+   note='Aliasing is detected through its observable effect (a later wrong answer or a modified argument); state merge ignores cache contents but checks run along every explored path.', design='4/C20'),
 })
 NA = {}
 
